@@ -402,7 +402,10 @@ fn judge(id: &str, scn: &ParScn, o: &Outcome, st: &mut Stats) -> Vec<Violation> 
                 max_batch = max_batch.max(run);
             }
         }
-        if drain && h.record_inits as usize > (q + 1) * max_batch.max(1) {
+        // (only when everything reached the consumer: otherwise outputs may have been created for
+        // sets the consumer never saw)
+        let complete = h.result.as_deref() == Some("Ok(None)");
+        if drain && complete && h.record_inits as usize > (q + 1) * max_batch.max(1) {
             add("C16.too_many_record_outputs", format!("{} per-record outputs were created although the {} data sets never held more than {} records at once", h.record_inits, q + 1, max_batch));
         }
         if max_batch >= 257 {
@@ -415,7 +418,7 @@ fn judge(id: &str, scn: &ParScn, o: &Outcome, st: &mut Stats) -> Vec<Violation> 
         let min_ext = scn.input.len().checked_div(scn.input.matches("\n@r").count() + 1).unwrap_or(1).max(4);
         let cap_eff = scn.cap.max(3).max(2 * (ext + 2));
         let bound = (q + 1) * (cap_eff / min_ext.min(ext).max(1) + 2) * 2;
-        if h.record_inits as usize > bound {
+        if h.result.as_deref() == Some("Ok(None)") && h.record_inits as usize > bound {
             add("C16.too_many_record_outputs", format!("parallel_records created {} per-record outputs; {} data sets with at most ~{} records each cannot need more than {}", h.record_inits, q + 1, cap_eff / min_ext.max(1) + 2, bound));
         }
     }
